@@ -33,6 +33,10 @@ def catalogue():
                              embedding_net=nn.Linear(4, 5)), [3], 4, True))
     out.append(("Flow(affine,ConditionalDiagonalNormal)",
                 lambda: Flow(PointwiseAffineTransform(0.5, 2.0), normal.ConditionalDiagonalNormal([3])), [3], 6, True))
+    out.append(("Flow(MAF-transform ctx,ConditionalDiagonalNormal with encoder,embedding)",
+                lambda: Flow(MaskedAffineAutoregressiveTransform(3, 8, context_features=5),
+                             normal.ConditionalDiagonalNormal([3], context_encoder=nn.Linear(5, 6)),
+                             embedding_net=nn.Linear(4, 5)), [3], 4, True))
     out.append(("MaskedAutoregressiveFlow", lambda: MaskedAutoregressiveFlow(3, 8, 2, 1), [3], None, False))
     out.append(("SimpleRealNVP", lambda: SimpleRealNVP(4, 8, 2, 1), [4], None, False))
     return out
@@ -63,8 +67,20 @@ def batched_rows(ck, tier, seed):
 
         def inverse(self, inputs, context=None):
             return inputs + 1000.0 * context, inputs.new_zeros(inputs.shape[0])
+    class Emb(nn.Module):       # a non-identity embedding network: the base must see 3 c + 7, not c
+        def forward(self, c):
+            return 3.0 * c + 7.0
+
+    class Ident(Transform):
+        def forward(self, inputs, context=None):
+            return inputs, inputs.new_zeros(inputs.shape[0])
+
+        def inverse(self, inputs, context=None):
+            return inputs, inputs.new_zeros(inputs.shape[0])
     dists = {"ConditionalDiagonalNormal": normal.ConditionalDiagonalNormal([1], context_encoder=Enc()),
-             "Flow": Flow(Shift(), normal.StandardNormal([1]))}
+             "Flow": Flow(Shift(), normal.StandardNormal([1])),
+             "Flow(embedding 3c+7, ConditionalDiagonalNormal)": Flow(Ident(), normal.ConditionalDiagonalNormal([1], context_encoder=Enc()),
+                                                                     embedding_net=Emb())}
     ns = [1, 2, 3, 5, 6, 7] if tier == "quick" else list(range(1, 10))
     for name, d in dists.items():
         for rows in (1, 2, 3, 4):
@@ -78,6 +94,8 @@ def batched_rows(ck, tier, seed):
                     continue            # shapes are reported by the shape search
                 ids = torch.round(r[1][..., 0] / 1000.0)
                 want = ctx.expand(rows, n_)
+                if "embedding" in name:
+                    want = 3.0 * want + 7.0
                 if not torch.equal(ids, want):
                     ck.finding("sample:draws-under-wrong-context-row:%s:%s" % (name, "batched" if bs is not None else "plain"),
                                "sample(%d, %d context rows, batch_size=%s): rows hold draws for context ids %s" % (n_, rows, bs, ids.tolist()), case)
